@@ -157,6 +157,16 @@ KERNELS = {
 }
 
 
+# beams of exactly unit length *in their own unit* (a "skip normalisation when already normalised" shortcut would alias)
+for _u in ('m', 'mm', 'dimensionless'):
+    KERNELS[f'conversion.beamline.two_theta/unit-{_u}'] = (kb.two_theta, {
+        'incident_beam': Const(lambda _u=_u: sc.vector([0.0, 0.0, 1.0], unit=_u)),
+        'scattered_beam': Const(lambda _u=_u: sc.vectors(dims=['pix'], values=[[1.0, 0.0, 0.0], [0.0, -1.0, 0.0]], unit=_u))})
+    KERNELS[f'conversion.beamline.two_theta/unit0d-{_u}'] = (kb.two_theta, {
+        'incident_beam': Const(lambda _u=_u: sc.vector([0.0, 0.0, 1.0], unit=_u)),
+        'scattered_beam': Const(lambda _u=_u: sc.vector([1.0, 0.0, 0.0], unit=_u))})
+
+
 def _lin(mat):
     return sc.spatial.linear_transform(value=mat)
 
